@@ -401,7 +401,7 @@ pub trait IntC<K: KeyT>: ReadC<K> + Interner<K> + IntoReader<K, Reader = ReaderT
     fn i_set_limit(&mut self, limit: usize);
     fn i_current(&self) -> usize;
     fn i_max(&self) -> usize;
-    fn i_extend(&mut self, items: Vec<String>);
+    fn i_extend(&mut self, items: Vec<String>, hint: (usize, Option<usize>));
     fn i_into_reader(self) -> ReaderT<K>;
 }
 
@@ -433,8 +433,9 @@ impl<K: KeyT> IntC<K> for RodeoT<K> {
     fn i_max(&self) -> usize {
         self.max_memory_usage()
     }
-    fn i_extend(&mut self, items: Vec<String>) {
-        Extend::extend(self, items);
+    fn i_extend(&mut self, items: Vec<String>, hint: (usize, Option<usize>)) {
+        // the iterator reports the size hint the case asks for (exact by default)
+        Extend::extend(self, HintIter { items: items.into_iter(), hint });
     }
     fn i_into_reader(self) -> ReaderT<K> {
         self.into_reader()
@@ -469,8 +470,9 @@ impl<K: KeyT> IntC<K> for ThreadedT<K> {
     fn i_max(&self) -> usize {
         self.max_memory_usage()
     }
-    fn i_extend(&mut self, items: Vec<String>) {
-        Extend::extend(self, items);
+    fn i_extend(&mut self, items: Vec<String>, hint: (usize, Option<usize>)) {
+        // the iterator reports the size hint the case asks for (exact by default)
+        Extend::extend(self, HintIter { items: items.into_iter(), hint });
     }
     fn i_into_reader(self) -> ReaderT<K> {
         self.into_reader()
@@ -1576,9 +1578,17 @@ impl<K: KeyT> World<K> {
                     None => return x(),
                 };
                 let items = list.clone();
+                let n = list.len();
+                let hint = match toks.get(3) {
+                    None | Some(&"exact") => (n, Some(n)),
+                    Some(&"none") => (0, None),
+                    Some(&"low") => (n / 2, Some(n / 2)),
+                    Some(&"high") => (2 * n + 7, Some(2 * n + 7)),
+                    _ => return x(),
+                };
                 let ok = match &mut self.slots[slot].obj {
-                    Obj::Rodeo(b) => guard(move || b.i_extend(items)),
-                    Obj::Threaded(b) => guard(move || b.i_extend(items)),
+                    Obj::Rodeo(b) => guard(move || b.i_extend(items, hint)),
+                    Obj::Threaded(b) => guard(move || b.i_extend(items, hint)),
                     _ => unreachable!(),
                 }
                 .is_some();
